@@ -36,6 +36,12 @@ type c37Req struct {
 	DelayMS     int    `json:"delay_ms"`
 	CancelAfter int    `json:"cancel_after,omitempty"` // cancel after k received blocks
 	CancelAtMS  int    `json:"cancel_at_ms,omitempty"` // cancel this long after the request was issued
+	// CancelRacing: the cancelling task starts together with the request and does not
+	// sleep, so the scheduler places the cancellation anywhere inside the call
+	CancelRacing bool `json:"cancel_racing,omitempty"`
+	// LongSession: the session lives under its own context, which outlives the
+	// request's: cancelling the request must clean up on a session that stays open
+	LongSession bool `json:"long_session,omitempty"`
 }
 
 type c37Chaos struct {
@@ -119,7 +125,11 @@ func c37Gen(t *rapid.T, tier string) any {
 		case 0:
 			r.CancelAfter = rapid.IntRange(1, 3).Draw(t, "cancelafter")
 		case 1:
-			r.CancelAtMS = rapid.SampledFrom([]int{1, 10, 60, 300, 1500, 9000}).Draw(t, "cancelat")
+			r.CancelAtMS = rapid.SampledFrom([]int{0, 0, 1, 10, 60, 300, 1500, 9000}).Draw(t, "cancelat")
+			r.CancelRacing = r.CancelAtMS == 0
+		}
+		if r.Kind == "session" {
+			r.LongSession = rapid.Bool().Draw(t, "longsession")
 		}
 		c.Reqs = append(c.Reqs, r)
 	}
@@ -213,6 +223,9 @@ type c37Live struct {
 	issued    bool
 	issuedAt  time.Duration
 	cancel    context.CancelFunc
+	// a session request whose session has its own, longer-lived context
+	long       bool
+	endSession context.CancelFunc
 }
 
 func c37Run(t *testing.T, ci any, trace bool) *verifsim.Result {
@@ -346,9 +359,11 @@ func c37Run(t *testing.T, ci any, trace bool) *verifsim.Result {
 				lv.issued = true
 				lv.issuedAt = s.Now()
 				s.Logf("issue %s", desc)
-				if r.CancelAtMS > 0 {
+				if r.CancelAtMS > 0 || r.CancelRacing {
 					s.GoBG(fmt.Sprintf("cancel%d", ri), func() {
-						time.Sleep(time.Duration(r.CancelAtMS) * time.Millisecond)
+						if r.CancelAtMS > 0 {
+							time.Sleep(time.Duration(r.CancelAtMS) * time.Millisecond)
+						}
 						if !lv.closed && !lv.cancelled {
 							s.Fault("request-cancel-timed")
 							s.Logf("cancel %s", desc)
@@ -398,7 +413,13 @@ func c37Run(t *testing.T, ci any, trace bool) *verifsim.Result {
 					}
 					s.GoBG(fmt.Sprintf("consume%d", ri), func() { consume(ch, lv, desc) })
 				case "session":
-					var f exchange.Fetcher = bsn.NewSession(rctx)
+					sctx := rctx
+					if r.LongSession {
+						sctx, lv.endSession = context.WithCancel(ctx)
+						lv.long = true
+						s.Probe("session-outlives-request")
+					}
+					var f exchange.Fetcher = bsn.NewSession(sctx)
 					ch, err := f.GetBlocks(rctx, keys)
 					if err != nil {
 						lv.failed = err
@@ -408,7 +429,7 @@ func c37Run(t *testing.T, ci any, trace bool) *verifsim.Result {
 					if len(keys2) > 0 {
 						// a second fetch on the same session is its own request as far as
 						// "at most once per request" goes
-						lv2 := &c37Live{idx: ri, node: r.Node, want: map[string]int{}, got: map[string]int{}, gotAt: map[string]time.Duration{}, issued: true, issuedAt: s.Now()}
+						lv2 := &c37Live{idx: ri, node: r.Node, want: map[string]int{}, got: map[string]int{}, gotAt: map[string]time.Duration{}, issued: true, issuedAt: s.Now(), long: lv.long}
 						for _, k := range r.Keys2 {
 							lv2.want[pool[k].Cid().KeyString()] = k
 						}
@@ -620,8 +641,28 @@ func c37Run(t *testing.T, ci any, trace bool) *verifsim.Result {
 						if when == "after the settle phase" {
 							owner := -1
 							for _, lv := range lives {
-								if lv.node == ni && lv.issued && !lv.cancelled && lv.got[w.KeyString()] > 0 {
+								if lv.node != ni || !lv.issued {
+									continue
+								}
+								if (!lv.cancelled || lv.long) && lv.got[w.KeyString()] > 0 {
 									owner = lv.idx
+								}
+								// the same on a session that outlives its cancelled request: the
+								// fetch took the block from the pubsub (so it is no longer among the
+								// keys it cancels on the way out) but the cancellation kept it from
+								// the caller. The block must have reached the node after the request
+								// was issued: announced locally, or received for another request.
+								if _, wants := lv.want[w.KeyString()]; wants && lv.long && lv.cancelled {
+									for _, la := range localAdds {
+										if la.node == ni && la.block == b && la.at >= lv.issuedAt {
+											owner = lv.idx
+										}
+									}
+									for _, e := range lives {
+										if e != lv && e.node == ni && e.got[w.KeyString()] > 0 && e.gotAt[w.KeyString()] >= lv.issuedAt {
+											owner = lv.idx
+										}
+									}
 								}
 							}
 							if owner >= 0 {
@@ -665,6 +706,9 @@ func c37Run(t *testing.T, ci any, trace bool) *verifsim.Result {
 		for _, lv := range lives {
 			if lv.issued && lv.cancel != nil {
 				lv.cancel() // also ends the sessions of completed requests
+			}
+			if lv.endSession != nil {
+				lv.endSession()
 			}
 		}
 		s.Settle(30 * time.Second)
